@@ -189,6 +189,7 @@ class DupGuard:
     def __init__(self):
         self.data = None
         self.t = 0.0
+        self.t_read = 0.0
         self.last_qu = False
         self.src = None
         self.is_resp = False
@@ -201,11 +202,17 @@ class DupGuard:
         same_src = src is None or self.src is None or src[1] == wire.MDNS_PORT or _src_key(src) == self.src
         # (a copy within 20 ms is a link-layer duplicate whatever the other sockets received in between; later ones are
         # retransmissions, which count again once a response on another socket may have undone the first)
-        fresh = not self.undone or (t_ms - 20.0) < self.t
-        return self.data == data and (t_ms - 1000.0) < self.t and fresh and not self.last_qu and same_src
+        # (... within 20 ms of the last time these bytes were READ: the copy of a dropped retransmission follows the
+        # retransmission, not the datagram that was processed up to a second earlier)
+        fresh = not self.undone or (t_ms - 20.0) < self.t_read
+        dup = self.data == data and (t_ms - 1000.0) < self.t and fresh and not self.last_qu and same_src
+        if dup:
+            self.t_read = t_ms
+        return dup
 
     def accept(self, data, t_ms, has_qu, src=None, is_resp=False):
         self.data, self.t, self.last_qu = data, t_ms, has_qu
+        self.t_read = t_ms
         self.src = _src_key(src) if src is not None else None
         self.is_resp = is_resp
         self.undone = False
